@@ -316,11 +316,12 @@ func (s *Sorter) SortedBlocks(ctx context.Context, removedCols map[int]struct{},
 				break
 			}
 
-			// append min row to block
-			minRow = r.RemoveFrom(minRow)
+			// append min row to block. The key is read before columns are
+			// removed: pkIndices are positions in the full column list
 			row := dec.Decode(minRow)
 			slice.CopyValuesFromIndices(row, rowPK, pkIndices)
 			pkOK := pkIsDifferent(rowPK, prevRowPK)
+			minRow = r.RemoveFrom(minRow)
 			if pkOK {
 				m := len(blk)
 				blk = blk[:m+1]
